@@ -12,6 +12,17 @@ def check(run):
     for nd in ([True] if run.tier == "quick" else [True, False]):
         ast, _ = crules.unit(run, ndebug=nd)
         crules.hash_rules(run, r[0], r[1], r[2], r[3], r[4], ast)
+    # "with the checked hash, every id that was not registered is reported": the checked hash is only worth something on the routes
+    # that pass it - every route from an object to a v-table pointer does, under the checked policies (the C15-call rule)
+    from .. import callpath, witness
+    from . import c15
+    run.rule("C05-routes", "under the checked policies every route from an object to a v-table pointer (dynamic_vptr, virtual_ptr's constructor on both branches, final) passes the checked hash", floor=20)
+    run.rule("C05-f", "(final's type comparison: decided by C15-final)", floor=0)
+    for nd in ([True] if run.tier == "quick" else [True, False]):
+        for u in callpath.build_units(run, sorted(witness.CHECKED), ["r", "V", "X", "W", "sS", "rir"], ndebug=nd, tag="c15"):
+            c15.call_rules(run, "C05-routes", "C05-f", u)
+    run.violations = [v for v in run.violations if v["rule"] != "C05-f"]
+    del run.rules["C05-f"]
     run.assumptions += ["that the random search finds a multiplier (or terminates) for a given id set, and the numeric content of the tables, are run-time values: not decided",
                         "the exhaustion path (hash_search_error + abort) is an instance of C02-abort"]
     return run.finish(level="other", explanation="AST rules on fast_perfect_hash::hash_initialize / hash_type_id, checked_perfect_hash and vptr_vector::publish_vptrs: path "
